@@ -140,6 +140,8 @@ if __name__ == "__main__":
         ingest(sys.argv[2], sys.argv[3:] or ["1", "2", "3"], root="/tmp/mut6", tag="r6.")
     elif cmd == "ingest7":
         ingest(sys.argv[2], sys.argv[3:] or ["1", "2", "3"], root="/tmp/mut7", tag="r7.")
+    elif cmd == "ingest9":
+        ingest(sys.argv[2], sys.argv[3:] or ["1", "2", "3"], root="/tmp/mut9", tag="r9.")
     elif cmd == "ingest8":
         ingest(sys.argv[2], sys.argv[3:] or ["1", "2", "3"], root="/tmp/mut8", tag="r8.")
     elif cmd == "eval":
